@@ -26,6 +26,10 @@ type RdbReplay struct {
 	KeyExists       string
 	KeyExistsLog    bool
 	ReplaceHashTag  bool
+
+	// key-exists policy "ignore" on the expanded path: the key whose value is being
+	// skipped, so that the remaining chunks of a split value are skipped as well
+	skippedKey []byte
 }
 
 func (rr *RdbReplay) Replay(e *rdb.BinEntry) (err error) {
@@ -60,7 +64,13 @@ func (rr *RdbReplay) Replay(e *rdb.BinEntry) (err error) {
 		if ot == rdb.RdbObjectModule {
 			return fmt.Errorf("rdb module object requires RESTORE replay for key %s", e.Key)
 		}
-		if e.FirstBin() {
+		if !e.FirstBin() {
+			if rr.skippedKey != nil && bytes.Equal(rr.skippedKey, e.Key) {
+				// the first chunk found the key on the target and the policy is "ignore"
+				return nil
+			}
+		} else {
+			rr.skippedKey = nil
 			exist, err := common.Bool(rr.Client.Do("exists", e.Key))
 			if err != nil {
 				return err
@@ -79,6 +89,10 @@ func (rr *RdbReplay) Replay(e *rdb.BinEntry) (err error) {
 					if rr.KeyExistsLog {
 						log.Warnf("output key exist, ignore it : %s", e.Key)
 					}
+					// keep the existing key untouched: nothing of the snapshot value may be
+					// merged into it, neither from this chunk nor from the following ones
+					rr.skippedKey = append([]byte(nil), e.Key...)
+					return nil
 				case "error":
 					return fmt.Errorf("output key exist : %s", e.Key)
 				}
